@@ -17,15 +17,31 @@ OBLIGATIONS = [NS + t for t in [
     "binOf_spec", "binOf_unique", "binOf_mem",
     "hist_spec", "hist_count_spec", "hist_bin_spec",
     "ratio_thresholds_spec", "percentile_thresholds_spec", "storeStats_spec",
+    # gap-closing round
+    "model_percentile_is_generated", "model_percentileC_is_generated", "model_position_is_generated",
+    "order_statistic_of_split", "nthBySort_spec", "percentileSortedC_eq_map", "fromPosNth_spec", "percentileNthC_spec",
+    "map_cast_sorted", "percentile_nth_spec", "percentile_nth_eq_percentile", "percentile_int_container",
+    "sorted_precondition_necessary", "ctor_sorts_thresholds", "unsorted_thresholds_break_the_rule", "unsorted_values_break_the_rule",
+    "mem_intRange", "intRange_pairwise", "expThresholds_pairwise_lt", "expScan_covers", "thresholdsFromExponents_spec",
+    "histFromExponents_spec", "powSpec_real", "getExponent_bracket", "exponents_value_bracketed",
+    "linSpacedAt_equidistant", "equidistant_list_props", "equidistantRatios_spec", "equidistantPercentiles_spec",
+    "sum_sq_dev", "tvariance_two_pass", "tstdev_is_standard_error", "tstdev_small", "stdev_radicand_witness",
+    "stats_fields_match", "load_store_roundtrip", "storeStats_one_and_none",
 ]]
 TRUSTED = [
     "Lean 4.33.0 kernel; Mathlib modules imported by NanoVerif/Proofs/Stats.lean and NanoVerif/Props/C20.lean "
     "(Algebra.Order.Floor, Algebra.Order.Field.Basic, Tactic.Linarith/Ring/NormNum, Data.List lemmas)",
     "axioms: at most propext, Classical.choice, Quot.sound (audited per theorem on every run)",
-    "hand-written model NanoVerif/Model/Stats.lean of stats.h / histogram.h / machine/stats.cpp (percentile list of store_stats "
-    "regenerated from the source into NanoVerif/Gen/Stats.lean on every run); tied to the code by the correspondence run "
-    "(harness/c20.cpp on the real code vs the compiled Lean driver at Float, bit-exact comparison except mean/stdev of store_stats)",
-    "std::sort / std::nth_element contract: a sorted permutation / the element of sorted rank k (parameter `sort` + SortSpec in the theorems)",
+    "hand-written model NanoVerif/Model/Stats.lean, StatsTyped.lean, StatsExp.lean of stats.h / histogram.h / histogram.cpp / "
+    "machine/stats.cpp; regenerated from the source into NanoVerif/Gen/Stats.lean on every run: the body of detail::percentile "
+    "(position formula, floor/ceil pair, midpoint; tied to the model by rfl theorems), the percentile list and slot layout of "
+    "store_stats, the field names of stats_t and the order of load_stats; the texts of percentile / percentile_sorted / median / "
+    "median_sorted are pinned by translate(); the rest is tied to the code by the correspondence run (harness/c20.cpp on the real code "
+    "vs the compiled Lean driver at Float, bit-exact comparison except mean/stdev of store_stats)",
+    "std::sort contract: a sorted permutation (parameter `sort` + SortSpec); std::nth_element contract: a permutation split at "
+    "position k (parameter `nth` + NthSpec) - monitored at run time on every `pct unsorted` op (python nth_monitor on the range read back)",
+    "std::log / std::pow / std::fabs = class Libm, bound to Float.log / Float.pow / Float.abs in the driver (same libm: make_from_exponents "
+    "and LinSpaced are compared bit-exactly) and to Real.log, zpow, |.| in the theorems; Eigen 3.4 LinSpaced modelled as coded",
     "tools/props/c20.py generator + sorted-array reference oracle; harness/c20.cpp; g++/libstdc++/Eigen",
 ]
 ASSUMPTIONS = [
@@ -36,14 +52,21 @@ ASSUMPTIONS = [
     "1e-9 of an integer",
     "asserts are compiled out in the release build: ops violating an assert (empty range, percentage outside [0,100], no "
     "thresholds, ratios outside (0,1), percentiles outside (0,100)) are never generated; the model returns none there",
-    "no NaN / infinite / negative-zero inputs",
-    "make_from_exponents: the pow/log threshold formula is not modelled; its thresholds are read back from the implementation "
-    "and only sanity-checked by the oracle (each is +-base^e, ascending, contiguous exponents, covering the values)",
-    "make_equidistant_ratios/percentiles (Eigen LinSpaced) are read back and checked against k/bins, 100k/bins at rtol 1e-12",
-    "tensor::stdev inside store_stats is modelled as the code computes it (sqrt((E[x^2]-mean^2)/(n-1))) and only compared "
-    "model-vs-implementation; it is not part of the property statement",
+    "no NaN values or thresholds (std::sort would be undefined), no infinite values; infinite thresholds and NaN / infinite queries "
+    "ARE generated (NaN query: valid index required, exact value compared with the model); no negative zeros",
+    "make_from_exponents: modelled (log / floor / pow through Libm); the int conversion of the exponent is exact for base >= 1 + 2^-20 "
+    "(generated bases >= 1.1); the python oracle checks the thresholds independently (each is +-base^e, contiguous exponents, covering "
+    "the clamped values, tolerance 1e-9 at the bracket ends)",
+    "make_equidistant_ratios/percentiles: modelled (LinSpaced as coded), compared bit-exactly for bins = 2..200 (quick) / 2..1000 "
+    "(thorough); python oracle: k/bins, 100k/bins at rtol 1e-12, strictly inside the open interval, strictly increasing",
+    "the double computation of the position p*(n-1)/100 with its floor/ceil is compared with the exact one EXHAUSTIVELY on the grid "
+    "p = 0..100 x n = 1..500 (50 500 pairs, quick and thorough; ops `grid`), on p = k/8 for 40 random n (quick) / every n (thorough), "
+    "and through the unsorted variant for n <= 120 (quick) / every n (thorough)",
+    "tensor::stdev inside store_stats is modelled as the code computes it (sqrt((E[x^2]-mean^2)/(n-1))) = the standard error of the "
+    "mean (theorem tstdev_is_standard_error) and compared model-vs-implementation; it is not part of the property statement",
 ]
-RULE = ("corpus; exhaustive small lists (n = 1..6, several shapes with ties/negatives) x every percentage of the grid k/8 (k = 0..800); random "
+RULE = ("corpus; the whole grid p = 0..100 x n = 1..500 (ops `grid`, 101 percentages per op); make_equidistant_* for every bins = 2..200; "
+        "percentile_sorted on unsorted ranges (positional reading); exhaustive small lists (n = 1..6, several shapes with ties/negatives) x every percentage of the grid k/8 (k = 0..800); random "
         "lists of 1..500 integers or dyadic reals with ties and negatives, percentages on the grid biased to 0/100/integral positions, five "
         "container types; histograms through make_from_thresholds/ratios/percentiles/exponents and the equidistant overloads with 1..20 "
         "thresholds incl. duplicates and out-of-range ones, queries on/between/beyond thresholds, integer and non-integer; store_stats; "
@@ -57,7 +80,204 @@ STORE_PCTS = [1, 5, 10, 20, 50, 80, 90, 95, 99]   # from the field names of ml::
 
 
 # ---------------------------------------------------------------------------------------------------------
-# translate: the percentile list of ml::store_stats -> NanoVerif/Gen/Stats.lean
+# translate: include/nano/core/stats.h (detail::percentile body, the four wrappers), src/machine/stats.cpp (store_stats slots,
+# load_stats order), include/nano/machine/stats.h (stats_t field names) -> NanoVerif/Gen/Stats.lean
+
+def _strip(src):
+    src = re.sub(r"/\*.*?\*/", " ", src, flags=re.S)
+    return re.sub(r"//[^\n]*", " ", src)
+
+
+def _norm(s):
+    return re.sub(r"\s+", "", s)
+
+
+def _body(src, head_regex, what):
+    m = re.search(head_regex, src)
+    if not m:
+        raise Broken("translate", f"{what} not found")
+    i = m.end(); depth = 1
+    while depth:
+        if i >= len(src):
+            raise Broken("translate", f"{what}: unbalanced braces")
+        depth += (src[i] == "{") - (src[i] == "}")
+        i += 1
+    return src[m.end():i - 1]
+
+
+_TOK = re.compile(r"\s*(?:(\d+\.\d*|\.\d+|\d+)|(static_cast<double>)|([A-Za-z_][A-Za-z_0-9]*)|(<=|>=|&&|[-+*/()<>]))")
+
+
+class _Expr:
+    """C++ scalar expression (double arithmetic, comparisons joined by &&) -> Lean text; collects the literals"""
+    def __init__(self, text, names, lits):
+        self.toks = []
+        i = 0
+        text = text.strip()
+        while i < len(text):
+            m = _TOK.match(text, i)
+            if not m:
+                raise Broken("translate", f"cannot tokenize `{text[i:i + 30]}`")
+            self.toks.append(m.group(m.lastindex)); i = m.end()
+            if text[i:].strip() == "":
+                break
+        self.i = 0; self.names = names; self.lits = lits
+
+    def peek(self):
+        return self.toks[self.i] if self.i < len(self.toks) else None
+
+    def eat(self, t=None):
+        x = self.peek()
+        if x is None or (t is not None and x != t):
+            raise Broken("translate", f"expected {t!r}, found {x!r}")
+        self.i += 1
+        return x
+
+    def done(self):
+        if self.i != len(self.toks):
+            raise Broken("translate", f"trailing tokens {self.toks[self.i:]}")
+
+    def conj(self):
+        a = self.cmp()
+        while self.peek() == "&&":
+            self.eat(); a = f"{a} ∧ {self.cmp()}"
+        return a
+
+    def cmp(self):
+        a = self.sum()
+        op = self.peek()
+        if op in ("<=", ">=", "<", ">"):
+            self.eat(); b = self.sum()
+            return {"<=": f"{a} ≤ {b}", ">=": f"{b} ≤ {a}", "<": f"{a} < {b}", ">": f"{b} < {a}"}[op]
+        return a
+
+    def sum(self):
+        a = self.term()
+        while self.peek() in ("+", "-"):
+            op = self.eat(); a = f"({a} {op} {self.term()})" if False else f"{a} {op} {self.term()}"
+        return a
+
+    def term(self):
+        a = self.unary()
+        while self.peek() in ("*", "/"):
+            op = self.eat(); a = f"{a} {op} {self.unary()}"
+        return a
+
+    def unary(self):
+        if self.peek() == "-":
+            self.eat()
+            return f"-{self.unary()}"
+        return self.atom()
+
+    def atom(self):
+        t = self.eat()
+        if t == "(":
+            e = self.sum(); self.eat(")")
+            return f"({e})"
+        if t == "static_cast<double>":
+            # an integer expression over `size`: only `size` and `size - k` (natural subtraction, size >= 1)
+            self.eat("("); e = self.eat()
+            if e != "size":
+                raise Broken("translate", f"static_cast<double>({e} …): only `size [- k]` is understood")
+            txt = "size"
+            if self.peek() == "-":
+                self.eat(); k = self.eat()
+                if not k.isdigit():
+                    raise Broken("translate", f"static_cast<double>(size - {k})")
+                txt = f"size - {k}"
+            self.eat(")")
+            return f"ofNat ({txt})"
+        if re.fullmatch(r"\d+\.\d*|\.\d+|\d+", t):
+            v = float(t)
+            if v != int(v):
+                raise Broken("translate", f"non-integer literal {t} in detail::percentile")
+            self.lits.add(int(v))
+            return str(int(v))
+        if t in self.names:
+            return t
+        raise Broken("translate", f"unknown identifier `{t}` in detail::percentile")
+
+
+WRAPPERS = {
+    # name -> (head regex, normalised body the model `Model/StatsTyped.lean` mirrors)
+    "percentile": (r"auto\s+percentile\s*\(\s*titerator\s+begin\s*,\s*titerator\s+end\s*,\s*const\s+double\s+percentage\s*\)\s*noexcept\s*\{",
+                   "constautofrom_position=[begin=begin,end=end](autopos){automiddle=begin;std::advance(middle,pos);"
+                   "std::nth_element(begin,middle,end);returnstatic_cast<double>(*middle);};"
+                   "returndetail::percentile(begin,end,percentage,from_position);"),
+    "percentile_sorted": (r"auto\s+percentile_sorted\s*\(\s*titerator\s+begin\s*,\s*titerator\s+end\s*,\s*const\s+double\s+percentage\s*\)\s*noexcept\s*\{",
+                          "assert(std::is_sorted(begin,end));constautofrom_position=[begin=begin](autopos){automiddle=begin;"
+                          "std::advance(middle,pos);returnstatic_cast<double>(*middle);};"
+                          "returndetail::percentile(begin,end,percentage,from_position);"),
+    "median": (r"auto\s+median\s*\(\s*titerator\s+begin\s*,\s*titerator\s+end\s*\)\s*noexcept\s*\{", "returnpercentile(begin,end,50);"),
+    "median_sorted": (r"auto\s+median_sorted\s*\(\s*titerator\s+begin\s*,\s*titerator\s+end\s*\)\s*noexcept\s*\{",
+                      "returnpercentile_sorted(begin,end,50);"),
+}
+
+
+def translate_percentile():
+    path = os.path.join(vlib.REPO, "include", "nano", "core", "stats.h")
+    src = _strip(open(path).read())
+    for name, (head, want) in WRAPPERS.items():
+        got = _norm(_body(src, head, f"nano::{name} (stats.h)"))
+        if got != want:
+            raise Broken("translate", f"stats.h: the body of nano::{name} is no longer the text the model mirrors: {got[:160]}")
+    body = _body(src, r"auto\s+percentile\s*\(\s*titerator\s+begin\s*,\s*titerator\s+end\s*,\s*const\s+double\s+percentage\s*,\s*"
+                      r"const\s+toperator&\s+from_position\s*\)\s*noexcept\s*\{", "detail::percentile (stats.h)")
+    stmts = " ".join(body.split())
+    pat = (r"assert\((?P<guard>.+?)\); "
+           r"const auto size = std::distance\(begin, end\); "
+           r"const double position = (?P<pos>.+?); "
+           r"const auto lpos = static_cast<decltype\(size\)>\(std::(?P<lf>floor|ceil)\(position\)\); "
+           r"const auto rpos = static_cast<decltype\(size\)>\(std::(?P<rf>floor|ceil)\(position\)\); "
+           r"if \(lpos == rpos\) \{ return from_position\(lpos\); \} "
+           r"else \{ const auto lvalue = from_position\(lpos\); const auto rvalue = from_position\(rpos\); return (?P<mid>.+?); \}")
+    m = re.fullmatch(pat, stmts)
+    if not m:
+        raise Broken("translate", "detail::percentile (stats.h) no longer has the statement structure the translator understands: "
+                     + stmts[:200])
+    lits = set()
+    e = _Expr(m.group("guard"), {"percentage"}, lits); guard = e.conj(); e.done()
+    e = _Expr(m.group("pos"), {"percentage"}, lits); pos = e.sum(); e.done()
+    e = _Expr(m.group("mid"), {"lvalue", "rvalue"}, lits); mid = e.sum(); e.done()
+    ofnats = " ".join(f"[OfNat α {k}]" for k in sorted(lits))
+    return (
+        "section\n"
+        f"variable {{α : Type}} [Add α] [Sub α] [Mul α] [Div α] [Neg α] [LT α] [LE α] [DecidableLT α] [DecidableLE α] {ofnats}\n\n"
+        "/-- stats.h `detail::percentile`: the condition of its `assert` -/\n"
+        f"def percentileGuard (percentage : α) : Prop := {guard}\n\n"
+        "instance (percentage : α) : Decidable (percentileGuard percentage) :=\n"
+        f"  inferInstanceAs (Decidable ({guard}))\n\n"
+        "/-- stats.h `detail::percentile`: the body after the assert. `ofNat` = `static_cast<double>` of an index, `floor` / `ceil` =\n"
+        "    `static_cast<ptrdiff_t>(std::floor / std::ceil(·))`, `from_position` = the caller's accessor (`none`: outside the range) -/\n"
+        "def percentileBody (ofNat : Nat → α) (floor ceil : α → Int) (from_position : Int → Option α) (size : Nat)\n"
+        "    (percentage : α) : Option α :=\n"
+        f"  let position := {pos}\n"
+        f"  let lpos := {m.group('lf')} position\n"
+        f"  let rpos := {m.group('rf')} position\n"
+        "  if lpos = rpos then from_position lpos\n"
+        "  else\n"
+        "    match from_position lpos, from_position rpos with\n"
+        f"    | some lvalue, some rvalue => some ({mid})\n"
+        "    | _, _ => none\n\n"
+        "end\n\n")
+
+
+def translate_stats_t():
+    hp = os.path.join(vlib.REPO, "include", "nano", "machine", "stats.h")
+    hs = _strip(open(hp).read())
+    body = _body(hs, r"struct\s+stats_t\s*\{", "struct stats_t (machine/stats.h)")
+    fields = re.findall(r"scalar_t\s+(m_[A-Za-z0-9_]+)\s*\{[^}]*\}\s*;", body)
+    if _norm(re.sub(r"scalar_t\s+m_[A-Za-z0-9_]+\s*\{[^}]*\}\s*;", "", body)) != "":
+        raise Broken("translate", "struct stats_t has members other than `scalar_t m_x{…};`")
+    cp = os.path.join(vlib.REPO, "src", "machine", "stats.cpp")
+    cs = _strip(open(cp).read())
+    lb = _norm(_body(cs, r"stats_t\s+nano::ml::load_stats\s*\([^)]*\)\s*\{", "ml::load_stats"))
+    m = re.fullmatch(r"assert\(stats\.size\(\)==(\d+)\);return\{((?:stats\(\d+\),?)+)\};", lb)
+    if not m:
+        raise Broken("translate", f"ml::load_stats is no longer `assert(size == N); return {{stats(i), …}};`: {lb[:120]}")
+    order = [int(k) for k in re.findall(r"stats\((\d+)\)", m.group(2))]
+    return fields, int(m.group(1)), order
+
 
 def translate():
     path = os.path.join(vlib.REPO, "src", "machine", "stats.cpp")
@@ -89,12 +309,26 @@ def translate():
                    r"std::begin\(values\), std::end\(values\), percentage\);", src)
     if not hm:
         raise Broken("translate", "the local percentile() helper of stats.cpp no longer forwards to nano::percentile")
-    text = ("-- GENERATED by tools/props/c20.py from src/machine/stats.cpp — do not edit\n"
+    fields, nload, order = translate_stats_t()
+    named = []
+    for f in fields:
+        mm = re.fullmatch(r"m_per(\d+)", f)
+        if mm:
+            named.append(int(mm.group(1)))
+    text = ("-- GENERATED by tools/props/c20.py from include/nano/core/stats.h, src/machine/stats.cpp, include/nano/machine/stats.h — do not edit\n"
             "namespace NanoVerif.Gen.Stats\n\n"
             "/-- the percentages of `ml::store_stats`, in the order of the slots `stats(3)`, `stats(4)`, … -/\n"
             f"def storeStatsPercentiles : List Nat := [{', '.join(str(p) for p in pcts)}]\n\n"
             "/-- number of slots written by `ml::store_stats` -/\n"
             f"def storeStatsSlots : Nat := {n}\n\n"
+            "/-- the fields of `ml::stats_t` in declaration order -/\n"
+            f"def statsFields : List String := [{', '.join(chr(34) + f + chr(34) for f in fields)}]\n\n"
+            "/-- the percentages announced by the NAMES of the fields `m_perNN`, in declaration order -/\n"
+            f"def statsFieldPercents : List Nat := [{', '.join(str(p) for p in named)}]\n\n"
+            "/-- `ml::load_stats`: the asserted size and the slot each field is initialised from, in declaration order -/\n"
+            f"def loadStatsSize : Nat := {nload}\n"
+            f"def loadStatsOrder : List Nat := [{', '.join(str(k) for k in order)}]\n\n"
+            + translate_percentile() +
             "end NanoVerif.Gen.Stats\n")
     vlib.write_if_changed(os.path.join(vlib.LEAN, "NanoVerif", "Gen", "Stats.lean"), text)
 
@@ -129,7 +363,7 @@ def values(rng, n, kind):
 
 def queries_for(rng, thr, vals, nq):
     qs = []
-    pool = list(thr) + list(vals[:8])
+    pool = [x for x in list(thr) + list(vals[:8]) if math.isfinite(x)]
     for _ in range(nq):
         base = rng.choice(pool) if pool else 0.0
         c = rng.below(8)
@@ -149,6 +383,8 @@ def queries_for(rng, thr, vals, nq):
             q = math.nextafter(base, rng.choice([-math.inf, math.inf]))
         else:
             q = rng.range(-800, 800) / 8.0
+        if rng.below(40) == 0:
+            q = rng.choice([math.inf, -math.inf, math.nan])     # non-finite queries
         qs.append(q + 0.0)
     return [0.0 if q == 0 else q for q in qs]
 
@@ -170,6 +406,8 @@ def thresholds_for(rng, vals, k):
             t = rng.choice(vals) + rng.choice([0.5, -0.5, 0.25, -0.25])
         else:
             t = lo + (hi - lo) * rng.range(0, 16) / 16.0
+        if rng.below(60) == 0:
+            t = rng.choice([math.inf, -math.inf])               # non-finite thresholds (NaN: std::sort would be undefined)
         ts.append(0.0 if t == 0 else t)
     return ts
 
@@ -202,6 +440,29 @@ def gen(rng, tier):
             kind = "sorted" if tcount % 2 else "unsorted"
             ys = xs if kind == "sorted" else rng.shuffle(xs)
             ops.append(f"stats pct {kind} {ty} {fl(ys)} {f2h(k / 8.0)}")
+
+    # the whole (p, n) grid of positions, p = 0..100, n = 1..500, EXHAUSTIVE in both tiers through the sorted variant (one op per n:
+    # the 101 percentages on the list 0..n-1, the answer reveals floor and ceil of the position as the code computed them in
+    # double; 50 500 pairs); the unsorted variant on the reversed list for n <= 120 (quick) / every n (thorough); the finer
+    # grid k/8 for 40 random n (quick) / every n (thorough)
+    for n in range(1, 501):
+        ops.append(f"stats grid sorted {TYPES[n % 5]} {n} 1")
+        if n <= 120 or not quick:
+            ops.append(f"stats grid unsorted {TYPES[(n + 2) % 5]} {n} 1")
+        if not quick:
+            ops.append(f"stats grid sorted {TYPES[(n + 1) % 5]} {n} 8")
+    if quick:
+        for _ in range(40):
+            ops.append(f"stats grid sorted {rng.choice(TYPES)} {rng.range(1, 500)} 8")
+    # make_equidistant_ratios / percentiles
+    for bins in range(2, 201 if quick else 1001):
+        ops.append(f"stats linspaced ratios {bins}")
+        ops.append(f"stats linspaced pcts {bins}")
+    # percentile_sorted on unsorted ranges: the positional reading (the precondition is only an assert)
+    for it in range(100 if quick else 1000):
+        n = rng.range(2, 12)
+        xs = values(rng, n, "int")
+        ops.append(f"stats pct positional {rng.choice(TYPES)} {fl(xs)} {f2h(grid(rng))}")
 
     # random percentiles / medians
     nmax = 200 if quick else 500
@@ -255,9 +516,9 @@ def gen(rng, tier):
             bins = rng.range(2, 12)
             ops.append(f"stats hist eqpcts {fl(xs)} {bins} {fl(queries_for(rng, sorted(xs)[::max(1, n // 6)], xs, nq))}")
         else:
-            base = rng.choice([2.0, 10.0, 1.5, 3.0, math.e])
-            eps = rng.choice([2.0 ** -52, 1e-6, 0.25, 1.0])
-            scale = rng.choice([1.0, 0.125, 16.0])
+            base = rng.choice([2.0, 10.0, 1.5, 3.0, math.e, 1.1, 7.0, 1.25, 100.0])
+            eps = rng.choice([2.0 ** -52, 1e-6, 0.25, 1.0, 3.0])
+            scale = rng.choice([1.0, 0.125, 16.0, 1e-3, 1e4, 1.0 / 3.0])
             ys = [x * scale for x in xs]
             pool = [s * base ** e for e in range(-3, 6) for s in (-1.0, 1.0)]
             ops.append(f"stats hist exp {fl(ys)} {f2h(base)} {f2h(eps)} {fl(queries_for(rng, pool, ys, nq))}")
@@ -281,6 +542,14 @@ def parse(op):
     d = dict(op=o)
     if o == "pct":
         d.update(kind=t.s(), type=t.s(), vals=t.fs(), p=t.f())
+        if not t.done():
+            if t.s() != "post":
+                raise ValueError("post")
+            d["post"] = t.fs()
+    elif o == "grid":
+        d.update(kind=t.s(), type=t.s(), n=t.int(), den=t.int(), vals=[])
+    elif o == "linspaced":
+        d.update(kind=t.s(), bins=t.int(), vals=[])
     elif o == "median":
         d.update(type=t.s(), vals=t.fs())
     elif o == "hist":
@@ -314,6 +583,10 @@ def unparse(d):
         return f"stats median {d['type']} {fl(d['vals'])}"
     if o == "store":
         return f"stats store {fl(d['vals'])}"
+    if o == "grid":
+        return f"stats grid {d['kind']} {d['type']} {d['n']} {d['den']}"
+    if o == "linspaced":
+        return f"stats linspaced {d['kind']} {d['bins']}"
     c = d["ctor"]
     mid = fl(d["args"]) if c in ("thr", "ratios", "pcts") else (str(d["bins"]) if c in ("eqratios", "eqpcts")
                                                               else f"{f2h(d['base'])} {f2h(d['eps'])}")
@@ -326,6 +599,18 @@ def shrink_candidates(op):
     except Exception:
         return
     d.pop("aug", None)
+    d.pop("post", None)
+    if d["op"] == "grid":
+        # a failing grid line: the single (p, n) pairs as `pct` ops (p = k / den on the list 0 .. n-1)
+        n, den = d["n"], d["den"]
+        xs = [float(i) for i in range(n)]
+        if d["kind"] == "unsorted":
+            xs = xs[::-1]
+        for k in range(100 * den + 1):
+            yield f"stats pct {d['kind']} {d['type']} {fl(xs)} {f2h(k / den)}"
+        return
+    if d["op"] == "linspaced":
+        return
     for key in ("queries", "vals", "args"):
         xs = d.get(key)
         if not xs:
@@ -351,6 +636,8 @@ def shrink_candidates(op):
                 zs = list(xs); zs[i] = float(math.trunc(x / 2))
                 if d["op"] == "pct" and d.get("kind") == "sorted":
                     zs = sorted(zs)
+                if d["op"] == "pct" and d.get("kind") == "positional":
+                    continue
                 e = dict(d); e[key] = zs
                 yield unparse(e)
 
@@ -372,6 +659,27 @@ def ref_percentile(xs_sorted, p):
     return acc
 
 
+def nth_monitor(d):
+    """run-time monitor of the std::nth_element contract (the oracle `nth` of the model, `NthSpec`): the caller's range after
+    the call(s) is a permutation of the input and position k = ceil(p(n-1)/100) (the last call) splits it: everything before
+    is <= range[k] <= everything after"""
+    post = d.get("post")
+    if post is None:
+        return "nth-element-contract: the harness did not report the range after the call"
+    xs = d["vals"]; n = len(xs)
+    if sorted(post) != sorted(xs):
+        return f"nth-element-contract: the range after percentile() is not a permutation of the input: {post[:8]}…"
+    q = Fraction(d["p"]) * (n - 1) / 100
+    cands = {math.ceil(q)}
+    m = round(q)
+    if abs(q - m) < NEAR:          # position within 1e-9 of an integer: the double computation may land on either side
+        cands |= {m, m + 1, m - 1}
+    for k in cands:
+        if 0 <= k < n and all(x <= post[k] for x in post[:k]) and all(post[k] <= x for x in post[k + 1:]):
+            return None
+    return f"nth-element-contract: position {sorted(cands)} does not split the range after percentile(): {post[:12]}…"
+
+
 def matches(got, acc):
     if got != got:
         return False
@@ -384,7 +692,7 @@ def show(acc):
 
 
 def isint(x):
-    return x == math.floor(x) and abs(x) < 1e15
+    return x == x and abs(x) < 1e15 and x == math.floor(x)
 
 
 def rule_bins(T, v):
@@ -407,10 +715,45 @@ def oracle(aug, res):
     o = d["op"]
     if o == "pct":
         got = r.f()
+        if d["kind"] == "positional":
+            # percentile_sorted on an unsorted range (precondition violated, assert compiled out): the statement promises nothing;
+            # the documented behaviour of the code is the positional reading of the range AS GIVEN (replay of the witness)
+            acc = ref_percentile(d["vals"], d["p"])
+            if not matches(got, acc):
+                return f"percentile-positional: percentile_sorted({d['p']}) on an unsorted range = {got!r}, positional reading {show(acc)}"
+            return None
         acc = ref_percentile(sorted(d["vals"]), d["p"])
         if not matches(got, acc):
             return (f"percentile-{d['kind']}: percentile({d['p']}) of {len(d['vals'])} values = {got!r}, sorted-array reference "
                     f"{show(acc)}")
+        if d["kind"] == "unsorted":
+            why = nth_monitor(d)
+            if why:
+                return why
+        return None
+    if o == "grid":
+        got = r.fs()
+        n, den = d["n"], d["den"]
+        if len(got) != 100 * den + 1:
+            return f"grid-shape: {len(got)} answers for {100 * den + 1} percentages"
+        for k, g in enumerate(got):
+            q = Fraction(k, den) * (n - 1) / 100
+            l, rr = math.floor(q), math.ceil(q)
+            want = Fraction(l + rr, 2)
+            if g != g or Fraction(g) != want:
+                return (f"percentile-{d['kind']}-grid: n = {n}, p = {k}/{den}: position {float(q)!r} (floor {l}, ceil {rr}), the list "
+                        f"0..{n - 1} gives {float(want)!r}, got {g!r}")
+        return None
+    if o == "linspaced":
+        got = r.fs()
+        b = d["bins"]; top = 1.0 if d["kind"] == "ratios" else 100.0
+        if len(got) != b - 1:
+            return f"equidistant-{d['kind']}: {len(got)} values for {b} bins"
+        for j, g in enumerate(got):
+            if not feq(g, top * (j + 1) / b, 1e-12) or not (0.0 < g < top):
+                return f"equidistant-{d['kind']}: element {j} of {b} bins = {g!r}, expected {top * (j + 1) / b!r} inside (0, {top})"
+        if any(got[j] >= got[j + 1] for j in range(len(got) - 1)):
+            return f"equidistant-{d['kind']}: not strictly increasing for {b} bins"
         return None
     if o == "median":
         a, b = r.f(), r.f()
@@ -421,12 +764,21 @@ def oracle(aug, res):
             return f"median-sorted: median_sorted = {b!r}, sorted-array reference {show(acc)}"
         return None
     if o == "store":
+        if r.t[r.i] == "load-mismatch":
+            return "store-load: load_stats(store_stats(values)) does not put slot k into the k-th field of stats_t"
         st = r.fs()
         xs = sorted(d["vals"]); n = len(xs)
         if len(st) != 3 + len(STORE_PCTS):
             return f"store-size: {len(st)} slots"
-        if not feq(st[0], math.fsum(xs) / n, 1e-12, 1e-300) or st[2] != float(n):
+        if not feq(st[0], math.fsum(xs) / n, 1e-12, max(abs(v) for v in xs)) or st[2] != float(n):
             return f"store-mean-count: mean {st[0]!r} count {st[2]!r} for {n} values with mean {math.fsum(xs) / n!r}"
+        # slot 1 as the code documents itself through tensor::variance / stdev: sqrt(sum (x - mean)^2 / (n (n - 1))), 0 for n = 1
+        mu = Fraction(sum(Fraction(x) for x in xs), n)
+        ss = sum((Fraction(x) - mu) ** 2 for x in xs)
+        want_sd = math.sqrt(ss / (n * (n - 1))) if n > 1 else 0.0
+        # the one-pass formula cancels: absolute allowance 1e-7 of the magnitude of the data
+        if not (abs(st[1] - want_sd) <= 1e-9 * want_sd + 1e-7 * max(abs(v) for v in xs) / max(1.0, math.sqrt(n - 1.0))):
+            return f"store-stdev: slot 1 = {st[1]!r} for {n} values, sqrt(sum (x - mean)^2 / (n (n - 1))) = {want_sd!r}"
         for k, p in enumerate(STORE_PCTS):
             acc = ref_percentile(xs, float(p))
             if not matches(st[3 + k], acc):
@@ -486,7 +838,7 @@ def oracle(aug, res):
             if M[i] == M[i] or D[i] == D[i]:
                 return f"hist-empty-bin: empty bin {i} has mean {M[i]!r} median {D[i]!r} (NaN expected)"
             continue
-        if not feq(M[i], math.fsum(mem) / len(mem), 1e-12, 1e-300):
+        if not feq(M[i], math.fsum(mem) / len(mem), 1e-12, max(abs(v) for v in mem)):
             return f"hist-mean: bin {i} mean {M[i]!r}, members' mean {math.fsum(mem) / len(mem)!r}"
         acc = ref_percentile(mem, 50.0)
         if not matches(D[i], acc):
@@ -496,6 +848,12 @@ def oracle(aug, res):
     if len(QD) != len(qs):
         return "hist-shape: number of query answers"
     for q, b in zip(qs, QD):
+        if q != q:
+            # NaN is not a real: the statement is silent; the code must still answer with a valid bin index (it answers with
+            # the last bin: every comparison is false), the exact value is compared with the model
+            if not (0 <= b <= k):
+                return f"bin-nan-query: bin(NaN) = {b} is not a bin index (0..{k})"
+            continue
         want = rule_bins(T, q)
         if want != [b]:
             key = "bin-integer-query" if isint(q) else "bin-noninteger-query"
